@@ -432,11 +432,12 @@ impl<R: Rng + Send> Multiplexor<R> {
 #[cfg(penguin_rs_verif)]
 impl<R> Multiplexor<R> {
     /// Verification hook (compiled only with `--cfg penguin_rs_verif`): a probe that reports the
-    /// number of entries in the flow table. It holds its own reference to the table, so it can
-    /// still be asked after the `Multiplexor` has been dropped.
+    /// number of entries in the flow table. It holds a weak reference only, so it does not keep
+    /// the table (and the channels in it) alive: once the `Multiplexor` and its task are gone
+    /// the table is freed as usual and the probe reports 0.
     pub fn verif_flow_count_probe(&self) -> impl Fn() -> usize + Send + Sync + 'static {
-        let flows = Arc::clone(&self.flows);
-        move || flows.read().len()
+        let flows = Arc::downgrade(&self.flows);
+        move || flows.upgrade().map_or(0, |flows| flows.read().len())
     }
 }
 
